@@ -155,8 +155,14 @@ def transform_arc_params(T, params):
 def apply(norm, T):
     """Image of a normalised path: list of (K, pts, params)."""
     out = []
+    pure_translation = tuple(T[:4]) == (1, 0, 0, 1) or tuple(float(v) for v in T[:4]) == (1.0, 0.0, 0.0, 1.0)
     for K, _, pts, params in norm:
-        out.append((K, [mp(T, p) for p in pts], transform_arc_params(T, params) if K == "A" else None))
+        # a translation leaves arc parameters exactly as written (re-deriving the rotation would respell
+        # 270 as -90.00000000000001, which is the same arc but not "the same shape, shifted")
+        ap = None
+        if K == "A":
+            ap = tuple(params) if pure_translation else transform_arc_params(T, params)
+        out.append((K, [mp(T, p) for p in pts], ap))
     return out
 
 
